@@ -161,6 +161,31 @@ Definition chunk_bytes (ds : list N) (data : list byte) : list byte :=
   map hexchar ds ++ [13; 10]%N ++ data ++ [13; 10]%N.
 Definition last_chunk_bytes : list byte := [48; 13; 10; 13; 10]%N.
 
+(** * H2 upload without content-length toward an HTTP/1.1 backend: the blocks
+    ConnectionH2::handle_data_frame pushes for each DATA frame (chunk header in
+    hex, data, end-of-chunk flags; on END_STREAM the end flags with
+    [end_chunk = chunked]) as kawa's H1 converter writes them. *)
+Definition hex_digit_char (v : N) : byte := if (v <? 10)%N then (v + 48)%N else (v + 87)%N.
+Fixpoint to_hex (fuel : nat) (n : N) (acc : list byte) : list byte :=
+  match fuel with
+  | O => acc
+  | S f =>
+    let acc' := hex_digit_char (n mod 16) :: acc in
+    if (n / 16 =? 0)%N then acc' else to_hex f (n / 16) acc'
+  end.
+
+(** one DATA frame with a non-empty payload *)
+Definition h2_data_as_chunk (data : list byte) : list byte :=
+  match data with
+  | [] => []
+  | _ => to_hex 20 (N.of_nat (length data)) [] ++ [13; 10]%N ++ data ++ [13; 10]%N
+  end.
+(** the end flags: "0" CR LF when the message is chunked and the body ends, CR LF when end_chunk *)
+Definition h2_end_as_chunk (end_chunk : bool) : list byte :=
+  [48; 13; 10]%N ++ (if end_chunk then [13; 10]%N else []).
+Definition h2_upload_as_h1 (frames : list (list byte)) (ended : bool) (end_chunk : bool) : list byte :=
+  flat_map h2_data_as_chunk frames ++ (if ended then h2_end_as_chunk end_chunk else []).
+
 (** * The H2 block converter on body blocks (lib/src/protocol/mux/converter.rs,
     H2BlockConverter::call, arms Block::Chunk and Block::Flags{end_stream}) driven
     by kawa.prepare: blocks are popped until the converter says stop. *)
